@@ -28,6 +28,18 @@ def build(shape, cs):
 # seeded in-memory mutants of the code under test (vacuity/mutation guard, DESIGN.md 3.5)
 # ------------------------------------------------------------------------------------------------
 def _mutate(name):
+    if name == 'digest_folds_line_endings':
+        from chameleon import template as ct
+        import inspect
+        import textwrap
+        src_fn = ct.BaseTemplate.digest
+        code = textwrap.dedent(inspect.getsource(src_fn))
+        new = code.replace("sha = get_pkg_digest()", "sha = get_pkg_digest()\n    body = body.replace('\\r\\n', '\\n')")
+        assert new != code
+        ns = src_fn.__globals__
+        exec('from __future__ import annotations\n' + new, ns)
+        ct.BaseTemplate.digest = ns['digest']
+        return
     if name == 'TextSE_narrow':       # lexer no longer accepts '&' in text
         tk.re_xml_spe = re.compile(tk.collector.res['XML_SPE'].replace('[^<]+|', '[^<&]+|', 1))
     elif name == 'iter_xml_pos':      # token position off by one after the first token
@@ -353,3 +365,32 @@ def explain(cfg, *args):
     except Exception as exc:
         info['emit_exc'] = repr(exc)
     return info
+
+
+# ---- verbatim also when compiled modules come from a shared on-disk cache ---------------------------------
+XDOCS = ['<?xml version="1.0"?>\n<a>x\ny</a>', '<?xml version="1.0"?>\n<a>x\r\ny</a>', '<?xml version="1.0"?>\r\n<a>x\ny</a>',
+         '<?xml version="1.0"?>\n<a>x\ry</a>', '<a>x\ny</a>', '<a>x\ny </a>']
+
+
+def cached_pair(i: int, j: int, k: int) -> bool:
+    """
+    pre: 0 <= i < 6 and 0 <= j < 6 and 0 <= k < 6
+    post: _
+    """
+    # statement-free documents compiled one after the other through one module cache: each renders as itself
+    # (XML documents keep their line endings; the last two are HTML-mode documents without CR)
+    from chameleon import PageTemplate
+    from vlib.cachepair import compile_through_one_cache
+    docs = [pickx(XDOCS, i), pickx(XDOCS, j), pickx(XDOCS, k)]
+    tpls = compile_through_one_cache([(PageTemplate, d, {}) for d in docs])
+    ok = True
+    for d, t in zip(docs, tpls):
+        ok = ok and t.render() == d
+    return (not ok) if CFG.get('negate') else ok
+
+
+def pickx(table, idx):
+    for n in range(len(table)):
+        if idx == n:
+            return table[n]
+    raise IndexError(idx)
